@@ -80,7 +80,13 @@ func NewFaultSliceWriter(capacity int) *FaultSliceWriter {
 	if capacity < 0 {
 		capacity = 0
 	}
-	return &FaultSliceWriter{bits.NewFixedSliceWriter(capacity)}
+	// the caller's buffer is a reused one: whatever an encoder does not write stays as it was (0xA5), so an encoder
+	// that relies on fresh zeroed memory shows as a byte difference against the io.Writer path
+	buf := make([]byte, capacity)
+	for i := range buf {
+		buf[i] = 0xa5
+	}
+	return &FaultSliceWriter{bits.NewFixedSliceWriterFromSlice(buf)}
 }
 
 var _ bits.SliceWriter = (*FaultSliceWriter)(nil)
